@@ -75,13 +75,7 @@ func (t *Term) String() string {
 		s = t.A[0].String() + "[" + lo + ":" + hi + "]"
 	case "index":
 		idx := t.A[1].String()
-		hasLoop := false
-		t.A[1].walk(func(u *Term) {
-			if u.Op == "loop" {
-				hasLoop = true
-			}
-		})
-		if hasLoop {
+		if isInductionVar(t.A[1]) {
 			idx = "*" // loop induction variable (range index)
 		}
 		s = t.A[0].String() + "[" + idx + "]"
@@ -1496,4 +1490,29 @@ func (p *Prog) zeroBufGlobal(g *ssa.Global) *Term {
 	z := &Term{Op: "buf", S: init.S, T: g.Type().(*types.Pointer).Elem()}
 	zeroBufCache[g] = z
 	return z
+}
+
+// isInductionVar: phi(c|@+k) or phi(...)+k — the index of a counting loop.
+func isInductionVar(t *Term) bool {
+	direct := func(u *Term) bool {
+		if u.Op != "phi" {
+			return false
+		}
+		for _, a := range u.A {
+			if a.Op == "loop" {
+				return true
+			}
+			if a.Op == "bin" && (a.A[0].Op == "loop" || a.A[1].Op == "loop") {
+				return true
+			}
+		}
+		return false
+	}
+	if direct(t) {
+		return true
+	}
+	if t.Op == "bin" && (t.S == "+" || t.S == "-") {
+		return (direct(t.A[0]) && t.A[1].Op == "const") || (direct(t.A[1]) && t.A[0].Op == "const")
+	}
+	return false
 }
